@@ -391,3 +391,56 @@ func C10_Expr() {
 	verif.Assert(errClass(xerr) != "internal", "no internal error (non-empty stack at RET)")
 	verif.Reach("checked")
 }
+
+// C10_LongJump: CONCRETE INSTANCES - a short-circuit operand whose code is
+// just below and above the 65535 bytes a jump operand can span: the program is
+// rejected, or accepted and well-formed (never accepted with a wrapped jump).
+func C10_LongJump() {
+	// every literal makes a constant of its own, so a term takes 5 bytes of
+	// code once the constant index needs three: the limit is near 13100 terms
+	terms := []int{12000, 13050, 13100, 13150, 14000, 20000}[verif.Choice("terms", 6)]
+	op := []string{"and", "or"}[verif.Choice("op", 2)]
+	var sb strings.Builder
+	sb.WriteString("print 0 " + op + " (1")
+	for i := 0; i < terms; i++ {
+		sb.WriteString("+")
+		sb.WriteString(itoa(2 + i%7))
+	}
+	sb.WriteString(")\nprint 7\n")
+	out, log := &symio.Writer{}, &symio.Writer{}
+	p, err := bcl.Parse([]byte(sb.String()), "src", bcl.OptOutput(out), bcl.OptLogger(log))
+	verif.Observe("rejected", err != nil)
+	if err != nil {
+		verif.Reach("rejected")
+		return
+	}
+	c10Static(p)
+	_, _, xerr := bcl.Execute(p)
+	verif.Assert(errClass(xerr) != "internal", "no internal error")
+	verif.Reach("checked")
+}
+
+// C10_TwoProgs: two programs compiled one after the other are both
+// well-formed afterwards and run to their own results (no shared buffers).
+func C10_TwoProgs() {
+	i, j := verif.Choice("first", len(c10Programs)), verif.Choice("second", 4)
+	srcA, srcB := c10Programs[i], c10Programs[(i+1+j*5)%len(c10Programs)]
+	oa, la := &symio.Writer{}, &symio.Writer{}
+	pa, err := bcl.Parse([]byte(srcA), "a", bcl.OptOutput(oa), bcl.OptLogger(la))
+	if err != nil {
+		panic("c10: program rejected: " + la.String())
+	}
+	_, _, e0 := bcl.Execute(pa)
+	want := oa.String()
+	oa.Buf = nil
+	ob, lb := &symio.Writer{}, &symio.Writer{}
+	pb, err := bcl.Parse([]byte(srcB), "b", bcl.OptOutput(ob), bcl.OptLogger(lb))
+	if err != nil {
+		panic("c10: program rejected: " + lb.String())
+	}
+	c10Static(pa)
+	c10Static(pb)
+	_, _, e1 := bcl.Execute(pa)
+	verif.Assert(errText(e0) == errText(e1) && oa.String() == want, "the first program still runs to its own result")
+	verif.Reach("checked")
+}
